@@ -211,20 +211,46 @@ func VerifC19Concurrent() {
 	w := &recWriter{}
 	s := NewStream(w)
 	ids := []string{"AAAAAAAA", "BBBBBBBB"}
-	var wg sync.WaitGroup
+	// Two phases. Logging the requests emits a dozen header frames per message; that phase runs
+	// under one schedule. Then both consumers read their bodies at the same time, and every
+	// schedule of that phase within the preemption bound is explored.
+	vf.FixedSchedule(true)
+	var wg, logged sync.WaitGroup
+	start := make(chan struct{})
 	for k := 0; k < 2; k++ {
 		k := k
 		wg.Add(1)
+		logged.Add(1)
 		go func() {
 			defer wg.Done()
-			s.sendHeader(ids[k], Request, "k1", "v1")
-			s.sendData(ids[k], Request, 0, false, []byte{byte('a' + k), byte('a' + k)}, 2)
-			s.sendData(ids[k], Request, 1, true, nil, 0)
+			// through the exported API only: log a request, then read its body to the end
+			req := &http.Request{Method: "PUT", URL: &url.URL{Scheme: "http", Host: "h", Path: "/"}, Host: "h", Header: http.Header{},
+				Proto: "HTTP/1.1", ProtoMajor: 1, ProtoMinor: 1, ContentLength: 2,
+				Body: &stepBody{data: []byte{byte('a' + k), byte('a' + k)}, steps: []step{{n: 2}, {n: 0, err: io.EOF}}}}
+			_, remove, err := martian.TestContext(req, nil, nil)
+			if err == nil {
+				defer remove()
+				err = s.LogRequest(ids[k], req)
+			}
+			logged.Done()
+			<-start
+			if err != nil {
+				return
+			}
+			p := make([]byte, 2)
+			for i := 0; i < 3; i++ {
+				if _, err := req.Body.Read(p); err != nil {
+					break
+				}
+			}
 		}()
 	}
+	logged.Wait()
+	vf.Quiesce()
+	vf.FixedSchedule(false)
+	close(start)
 	wg.Wait()
 	vf.Quiesce()
-	vf.Assert(len(w.writes) == 6, "six-frames-written")
 	per := map[string][]pframe{}
 	for _, wr := range w.writes {
 		f, ok := parseOne(wr)
@@ -233,11 +259,21 @@ func VerifC19Concurrent() {
 	}
 	for k, id := range ids {
 		fs := per[id]
-		vf.Assert(len(fs) == 3, "three-frames-per-message")
-		if len(fs) == 3 {
-			vf.Assert(fs[0].header && !fs[1].header && fs[1].index == 0 && !fs[2].header && fs[2].index == 1 && fs[2].terminal, "per-message-order-kept")
-			vf.Assert(len(fs[1].data) == 2 && fs[1].data[0] == byte('a'+k), "data-belongs-to-its-message")
+		var data []byte
+		next, seenData, terminal := uint32(0), false, false
+		for _, f := range fs {
+			if f.header {
+				vf.Assert(!seenData, "per-message-order-kept")
+				continue
+			}
+			seenData = true
+			vf.Assert(!terminal && f.index == next, "per-message-order-kept")
+			next++
+			data = append(data, f.data...)
+			terminal = f.terminal
 		}
+		vf.Assert(len(fs) > 0 && terminal, "every-message-logged-to-its-terminal-frame")
+		vf.Assert(len(data) == 2 && data[0] == byte('a'+k) && data[1] == byte('a'+k), "data-belongs-to-its-message")
 	}
 	vf.Reach("done")
 }
